@@ -8,7 +8,7 @@
    order, kept iff they satisfy [pred], each with its complete subtree.  [xrun]/[jrun] are the
    readers' Read-to-EOF loops over the decoder's token stream; [rel] says after which deliveries
    the caller calls Release. *)
-From Coq Require Import List NArith Bool.
+From Coq Require Import List NArith Bool String.
 Import ListNotations.
 From OV Require Import Base.Bytes Base.Tree Model.Stream Proofs.Stream Proofs.StreamXml Proofs.StreamJson.
 
@@ -47,3 +47,63 @@ Proof. exact whole_doc_selection_is_spec. Qed.
 Theorem release_then_prologue : forall st st1,
   release st = Some st1 -> read_prologue st1 = read_prologue st.
 Proof. exact release_then_prologue. Qed.
+
+(* ---- witnesses and non-vacuity ------------------------------------------------------------------- *)
+Local Open Scope string_scope.
+Definition E (n : String.string) (ks : list xnode) : xnode := XE (bs n) (FXml [] []) [] ks.
+Definition nt (n : String.string) : nametest := NTName [] (bs n).
+
+(* F13 (repaired in /repo 42cabe2): with the old closing check "does ANY node match the full
+   xpath" the outer <n> of <r><n><n><x>1</x></n></n></r> is delivered for //n[x='1'] although it
+   has no child x; whole-document selection (outermost //n, kept iff it satisfies the predicate)
+   is empty.  With the repaired check the model delivers nothing, as the theorem says. *)
+Definition f13_doc := [E "r" [E "n" [E "n" [E "x" [XT (bs "1")]]]]].
+Definition f13_tg := mkTarget [(Desc, nt "n")] [PChildEq (nt "x") (bs "1")].
+Example stream_nested_old_refuted :
+  map fst (fst (xrun (pm_of f13_tg) (pred_target f13_tg) true true x_init [] (xdoc_events f13_doc)))
+    = [xtree (E "n" [E "n" [E "x" [XT (bs "1")]]])]
+  /\ whole_doc_selection (pm_of f13_tg) (pred_target f13_tg) (xdoc_tree f13_doc) = []
+  /\ fst (xrun (pm_of f13_tg) (pred_target f13_tg) true false x_init [] (xdoc_events f13_doc)) = [].
+Proof. vm_compute. repeat split. Qed.
+
+(* F21 (repaired in /repo 6bddcb3): stripping only the LAST predicate leaves /r/n[x='1'] for the
+   candidate check at element start, where no element has children yet. *)
+Definition f21_tg := mkTarget [(Child, nt "r"); (Child, nt "n")]
+                              [PChildEq (nt "x") (bs "1"); PChildEq (nt "y") (bs "2")].
+Example split_filter_multi_old_refuted :
+  fst (split_filter_old (render_target f21_tg)) = bs "/r/n[x='1']"
+  /\ split_filter (render_target f21_tg) = Some (bs "/r/n", true).
+Proof. vm_compute. split; reflexivity. Qed.
+
+(* nested candidates: //a in <a><a/></a> delivers the outer a once, complete *)
+Example nonvacuous_nested :
+  let doc := [E "a" [E "a" []]] in
+  let tg := mkTarget [(Desc, nt "a")] [] in
+  map fst (fst (xrun (pm_of tg) (pred_target tg) false false x_init [true] (xdoc_events doc)))
+  = [xtree (E "a" [E "a" []])].
+Proof. vm_compute. reflexivity. Qed.
+
+(* rejected-then-accepted siblings and several candidates per parent, mixed content, attributes *)
+Example nonvacuous_siblings :
+  let n v := XE (bs "n") (FXml [] []) [(bs "id", FXml [] [], bs v)] [E "x" [XT (bs v)]; XT (bs " ")] in
+  let doc := [E "r" [n "0"; XT (bs "sep"); n "1"; n "0"; n "1"]] in
+  let tg := mkTarget [(Child, nt "r"); (Child, NTAny)] [PChildEq (nt "x") (bs "1"); PAttrEq ([], bs "id") (bs "1")] in
+  map fst (fst (xrun (pm_of tg) (pred_target tg) true false x_init [true; false] (xdoc_events doc)))
+  = [xtree (n "1"); xtree (n "1")]
+  /\ pm_of tg [] = false.
+Proof. vm_compute. split; reflexivity. Qed.
+
+(* JSON: scalar, array and object targets, and the whole document *)
+Definition jdoc1 := JO [] [JA (bs "a") [JS [] (JNumT (bs "1")); JO [] [JS (bs "b") (JNumT (bs "2"))]; JA [] [JS [] (JNullT)]];
+                           JS (bs "c") (JStrT (bs "x"))].
+Example nonvacuous_json :
+  let tg := mkTarget [(Child, nt "a"); (Child, NTAny)] [] in
+  map fst (fst (jrun (pm_of tg) (pred_target tg) false false j_init [true; false; true] (jdoc_events jdoc1)))
+  = [jkid false (JS [] (JNumT (bs "1"))); jkid false (JO [] [JS (bs "b") (JNumT (bs "2"))]);
+     jkid false (JA [] [JS [] JNullT])]
+  /\ jwf jdoc1 = true
+  /\ map fst (fst (jrun (fun c => match c with [] => true | _ => false end) ptrue false false j_init []
+                        (jdoc_events jdoc1))) = [jdoc_tree jdoc1]
+  /\ map fst (fst (jrun (fun c => match c with [] => true | _ => false end) ptrue false false j_init []
+                        (jdoc_events (JS [] (JNumT (bs "5")))))) = [jdoc_tree (JS [] (JNumT (bs "5")))].
+Proof. vm_compute. repeat split. Qed.
